@@ -19,6 +19,6 @@ def lenOps : List SrcOp :=
 /-- control skeleton of `PopWait` in source order: tests of the duration parameter, loops,
 calls of `Pop`, `runtime.Gosched`, returns, the ticker -/
 def popWaitOps : List SrcOp :=
-  [.cond "d < 0", .loop, .callPop, .ret, .gosched, .callPop, .ret, .cond "d == 0", .ret, .ticker, .loop, .callPop, .ret, .cond "? >= d", .ret]
+  [.cond "d < 0", .loop, .callPop, .ret, .gosched, .callPop, .ret, .cond "d == 0", .ret, .ticker, .loop, .other "recv ticker.C", .callPop, .ret, .cond "now.Sub(begin) >= d", .ret]
 
 end Golib.Gen.C11
